@@ -150,7 +150,8 @@ func (f *funcSpec) opts() string {
 type execState struct {
 	mu          sync.Mutex
 	panics      []string
-	enumOmitted atomic.Bool
+	enumOmitted atomic.Bool // a batch func left out an entry of enum type
+	tmOmitted   atomic.Bool // a batch func left out an entry of a text-marshaler struct type
 	resolved    atomic.Int64
 }
 
@@ -743,6 +744,7 @@ func (s *schemaInst) batchFunc(f *funcSpec, owner reflect.Type) reflect.Value {
 		out = append(out, tErr)
 	}
 	isEnum := f.hasRet && (f.retType == tEnumI || f.retType == tEnumS)
+	isTM := f.hasRet && (f.retType == reflect.TypeOf(TMStruct{}) || f.retType == reflect.TypeOf(&TMStruct{}) || f.retType == reflect.TypeOf(&TMPtrOnly{}))
 	ft := reflect.FuncOf(in, out, false)
 	return reflect.MakeFunc(ft, func(args []reflect.Value) []reflect.Value {
 		st := s.exec.Load()
@@ -760,14 +762,22 @@ func (s *schemaInst) batchFunc(f *funcSpec, owner reflect.Type) reflect.Value {
 			it := args[idx].MapRange()
 			for it.Next() {
 				vg := &valGen{s: s, r: newRand(salt ^ s.seedOf(it.Value()) ^ f.hash)}
-				if !f.nonNull && vg.r.Intn(5) == 0 {
-					// a missing entry is how a batch func answers "null"
+				var v reflect.Value
+				if f.nonNull || vg.r.Intn(5) != 0 {
+					v = vg.value(f.retType, 2, f.nonNull)
+				}
+				// a missing entry (or a nil pointer) is how a batch func answers "null"
+				if !v.IsValid() || (v.Kind() == reflect.Ptr && v.IsNil()) {
 					if isEnum && st != nil {
 						st.enumOmitted.Store(true)
 					}
-					continue
+					if isTM && st != nil {
+						st.tmOmitted.Store(true)
+					}
 				}
-				m.SetMapIndex(it.Key(), vg.value(f.retType, 2, f.nonNull))
+				if v.IsValid() {
+					m.SetMapIndex(it.Key(), v)
+				}
 			}
 			res = append(res, m)
 		}
